@@ -372,22 +372,7 @@ Proof.
   - apply wf_shardb_true; exact H1.
   - apply mergeableb_true; exact H2.
 Qed.
-Lemma c16_ok_no_failure : forall mode inputs failed outs,
-  c16_ok (mode, inputs, failed, outs) = true -> inputs <> [] ->
-  Forall wf_shard inputs /\ Forall mergeable inputs /\ failed = false.
-Proof.
-  intros mode inputs failed outs H Hne. unfold c16_ok in H. apply andb_prop in H. destruct H as [Hpre H].
-  destruct (c16_pre_true _ Hpre) as [Hwf Hmg]. split; auto. split; auto.
-  unfold c16_ok_out in H. destruct mode as [|p].
-  - destruct (merge_total inputs Hne Hwf Hmg) as [b Hb]. rewrite Hb in H.
-    destruct outs as [|o [|o2 outs]]; try discriminate.
-    apply andb_prop in H. destruct H as [H _]. destruct failed; [discriminate|reflexivity].
-  - destruct inputs as [|sh [|sh2 rest]]; try discriminate.
-    inversion Hwf as [|? ? Hw _]; subst. inversion Hmg as [|? ? Hm _]; subst.
-    destruct (explode_total sh Hw Hm) as [bs Hbs]. rewrite Hbs in H.
-    apply andb_prop in H. destruct H as [H _]. apply andb_prop in H. destruct H as [H _].
-    destruct failed; [discriminate|reflexivity].
-Qed.
+(* c16_ok_no_failure: see Proofs/MergeDocsWidth.v (the runner evaluates merge_impl / explode_impl) *)
 
 (** ---- necessity for explode: a successful explode implies that the shard was mergeable *)
 Lemma explode_docs_ok_mergeable : forall sh docs cur last done outs,
